@@ -482,6 +482,10 @@ pub fn run(report: &Report) {
     models_part(report);
     coders_part(report, if q { 6 } else { 7 });
     faults_part(report, if q { 7 } else { 8 });
+    // impossible symbols inside BATCH calls (encode_symbols, the _reverse / try_ / iid forms): the batch must stop
+    // at the impossible symbol exactly like the per-symbol loop and leave the coder as the loop does
+    super::c01::batch_forms::<crate::models::U8U32>(report, if q { 3 } else { 4 });
+    super::c01::batch_forms::<crate::models::U32U64>(report, 2);
 }
 
 pub fn replay(_case: &serde_json::Value) -> Result<String, String> {
